@@ -195,9 +195,36 @@ def _transition(fid, dep, nlev_dep):
             "levels": [{"name": "same", "w": 1, "table": same}, {"name": "diff", "w": 1, "table": [1 - x for x in same]}]}
 
 
+class _Families(list):
+    """list that remembers at which index each family starts"""
+
+    def __init__(self):
+        super().__init__()
+        self.marks = []
+
+    def mark(self):
+        self.marks.append(len(self))
+
+
 def corpus_designs(big):
-    """Deterministic boundary families, run before the random designs (sizes where past defects lived)."""
+    """Deterministic boundary families (sizes and shapes where past defects lived), interleaved so that any
+    prefix of the list visits every family."""
+    fam = _corpus_families(big)
+    bounds = fam.marks + [len(fam)]
+    groups = [fam[bounds[i]:bounds[i + 1]] for i in range(len(bounds) - 1)]
     out = []
+    i = 0
+    while any(groups):
+        g = groups[i % len(groups)]
+        if g:
+            out.append(g.pop(0))
+        i += 1
+    return out
+
+
+def _corpus_families(big):
+    out = _Families()
+    out.mark()
     c, t = _sf(0, ["r", "g"]), _sf(1, ["x", "y"])
     ns = range(2, 8) if big else (4, 5, 6)
     ks = range(1, 6) if big else (2, 3, 4)
@@ -209,6 +236,7 @@ def corpus_designs(big):
                         continue
                     out.append({"factors": [c, t], "block": {"k": "cross", "design": [0, 1], "crossing": [0], "rcc": True,
                                 "cs": [{"k": "MinimumTrials", "n": n}, {"k": kind, "n": k, "f": fid, "l": 0}]}})
+    out.mark()
     # weighted crossed levels with a partial last chunk, in CrossBlock and under Repeat
     for names, ws in ((["a", "b"], [2, 1]), (["a", "b", "c"], [2, 1, 1]), (["a", "b"], [3, 1])):
         f = _sf(0, names, ws)
@@ -218,6 +246,7 @@ def corpus_designs(big):
                         "cs": [{"k": "MinimumTrials", "n": n}]}})
             out.append({"factors": [f], "block": {"k": "repeat", "cs": [{"k": "MinimumTrials", "n": n}],
                         "b": {"k": "cross", "design": [0], "crossing": [0], "rcc": True, "cs": []}}})
+    out.mark()
     # Pin at every index, crossed and uncrossed, also under Repeat
     for idx in range(-5, 5):
         for fid in (0, 1):
@@ -226,6 +255,7 @@ def corpus_designs(big):
         out.append({"factors": [c, t], "block": {"k": "repeat", "cs": [{"k": "MinimumTrials", "n": 4}],
                     "b": {"k": "cross", "design": [0, 1], "crossing": [0], "rcc": True,
                           "cs": [{"k": "Pin", "idx": idx, "f": 1, "l": 0}]}}})
+    out.mark()
     # MultiCrossBlock: crossings with different preambles (a transition factor in one crossing), all modes/alignments
     m3 = _sf(2, ["p", "q", "s"])
     tr = _transition(3, 0, 2)
@@ -235,6 +265,56 @@ def corpus_designs(big):
                 des = [0, 1, 2, 3] if any(2 in cr for cr in crossings) else [0, 1, 3]
                 out.append({"factors": [c, t, m3, tr], "block": {"k": "multicross", "design": des, "crossings": crossings,
                             "cs": [], "rcc": True, "mode": mode, "align": align}})
+    out.mark()
+    # Exclude on a within-trial derived level whose factor is outside the crossing (sources partly outside too)
+    col, wrd = _sf(0, ["r", "g"]), _sf(1, ["r", "g"])
+    eq = [0] * 9
+    eq[1 * 3 + 1] = eq[2 * 3 + 2] = 1
+    con = {"id": 2, "name": "f2", "window": {"deps": [0, 1], "width": 1, "stride": 1, "start": None, "kind": "within"},
+           "levels": [{"name": "con", "w": 1, "table": eq}, {"name": "inc", "w": 1, "table": [1 - x for x in eq]}]}
+    for crossing in ([0], [0, 1]):
+        for lvl in (0, 1):
+            for extra in ([], [{"k": "MinimumTrials", "n": 5}]):
+                out.append({"factors": [col, wrd, con], "block": {"k": "cross", "design": [0, 1, 2], "crossing": crossing, "rcc": False,
+                            "cs": [{"k": "Exclude", "f": 2, "l": lvl}] + extra}})
+    out.append({"factors": [col, wrd, con], "block": {"k": "multicross", "design": [0, 1, 2], "crossings": [[0], [1]], "rcc": False,
+                "cs": [{"k": "Exclude", "f": 2, "l": 0}], "mode": "repeat", "align": "equal preamble"}})
+    out.mark()
+    # crossed within-trial derived factor whose source is outside the crossing, with different numbers of
+    # completions per level; whole and partial chunks, uniform weights
+    size3 = _sf(1, ["s", "m", "l"])
+    low = [0, 0, 0, 1]
+    match = {"id": 2, "name": "f2", "window": {"deps": [1], "width": 1, "stride": 1, "start": None, "kind": "within"},
+             "levels": [{"name": "low", "w": 1, "table": low}, {"name": "high", "w": 1, "table": [1 - x for x in low]}]}
+    match_rev = dict(match, levels=list(reversed(match["levels"])))
+    for mt in (match, match_rev):
+        for n in (2, 3, 4, 5):
+            out.append({"factors": [size3, mt], "block": {"k": "cross", "design": [1, 2], "crossing": [2], "rcc": True,
+                        "cs": [{"k": "MinimumTrials", "n": n}]}})
+        out.append({"factors": [col, size3, mt], "block": {"k": "repeat", "cs": [{"k": "MinimumTrials", "n": 5}],
+                    "b": {"k": "cross", "design": [0, 1, 2], "crossing": [0, 2], "rcc": True, "cs": []}}})
+    out.mark()
+    # a preamble (transition factor in the crossing) together with an Exclude on a basic level
+    tr0 = _transition(3, 0, 2)
+    for fid, lvl in ((1, 2), (1, 0)):
+        out.append({"factors": [col, size3, tr0], "block": {"k": "cross", "design": [0, 1, 3], "crossing": [3], "rcc": False,
+                    "cs": [{"k": "Exclude", "f": fid, "l": lvl}]}})
+    out.append({"factors": [col, size3, tr0], "block": {"k": "cross", "design": [0, 1, 3], "crossing": [0, 3], "rcc": False,
+                "cs": [{"k": "Exclude", "f": 1, "l": 1}]}})
+    out.mark()
+    # windows with an explicit start (earlier and later than the automatic one), also over a weighted uncrossed factor
+    for wts in (None, [2, 1]):
+        src = _sf(1, ["x", "y"], wts)
+        for width, start in ((2, 0), (2, 2), (2, 3), (1, 1), (3, 1)):
+            size = 3 ** width
+            tbl = [1 if (i % 3) == 1 else 0 for i in range(size)]
+            wf = {"id": 2, "name": "f2", "window": {"deps": [1], "width": width, "stride": 1, "start": start, "kind": "window"},
+                  "levels": [{"name": "A", "w": 1, "table": tbl}, {"name": "B", "w": 1, "table": [1 - x for x in tbl]}]}
+            out.append({"factors": [col, src, wf], "block": {"k": "cross", "design": [0, 1, 2], "crossing": [0], "rcc": True,
+                        "cs": [{"k": "MinimumTrials", "n": 4}]}})
+            out.append({"factors": [col, src, wf], "block": {"k": "cross", "design": [0, 1, 2], "crossing": [0], "rcc": True,
+                        "cs": [{"k": "MinimumTrials", "n": 4}, {"k": "AtMostKInARow", "n": 2, "f": 2, "l": 0}]}})
+    out.mark()
     # block-scoped vs combinator-scoped run-length constraints under Repeat; Nest
     for k in (1, 2):
         inner = {"k": "cross", "design": [0, 1], "crossing": [0], "rcc": True, "cs": [{"k": "AtMostKInARow", "n": k, "f": 1, "l": 0}]}
@@ -306,6 +386,9 @@ def synth_isolated(desc, n, strat, timeout=60):
 def random_space(block):
     """Number of candidate keys RandomGen would have to walk through to exhaust the design (None if unknown)."""
     from sweetpea._internal.sampling_strategy.random import UCSolutionEnumerator
+    import signal
+    old = signal.signal(signal.SIGALRM, _alarm)
+    signal.alarm(8)
     try:
         if quiet(block.show_errors):
             return 0
@@ -313,8 +396,13 @@ def random_space(block):
         n = block.trials_per_sample()
         rounds = (n - en._preamble_size) // en.crossing_size
         return en.preamble_solution_count() * pow(en.solution_count(), rounds) * en.leftover_solution_count()
+    except CallTimeout:
+        return 10 ** 9            # counting alone is too slow: treat the space as too large
     except Exception:
         return None
+    finally:
+        signal.alarm(0)
+        signal.signal(signal.SIGALRM, old)
 
 
 class Case:
